@@ -486,6 +486,17 @@ func pkgWrites(repo string, dirs []string) []map[string]string {
 									rec(id.Name, "method "+sel.Sel.Name, v.Pos())
 								}
 							}
+							// `global[:0]` handed to a call (append, or a function that appends into its argument):
+							// the idiom for re-using a buffer as a destination
+							for _, a := range v.Args {
+								if sl, ok := a.(*ast.SliceExpr); ok && sl.High != nil {
+									if lit, ok := sl.High.(*ast.BasicLit); ok && lit.Value == "0" {
+										if id := rootIdent(sl.X); id != nil && globals[id.Name] && !locals[id.Name] {
+											rec(id.Name, "re-sliced to length 0 as a destination", v.Pos())
+										}
+									}
+								}
+							}
 						case *ast.UnaryExpr:
 							if v.Op == token.AND {
 								if id := rootIdent(v.X); id != nil && globals[id.Name] && !locals[id.Name] {
